@@ -79,6 +79,38 @@ pub fn facts() -> Result<Value, String> {
         let _ = b;
         literals.push(json!({"item": l, "cp": cp, "members": members_of(&bc, false)}));
     }
+    // every spelling of a literal regex-syntax knows, at top level and as a one-element class,
+    // for the characters that mean something elsewhere in the syntax; measured through the API
+    let mut unbuilt: Vec<String> = vec![];
+    for c in ['.', '*', '+', '?', '(', ')', '[', ']', '{', '}', '|', '^', '$', '\\', '-', '&', '~', '#', '/', ' ', 'a', 'Z', '0', '\n', '\r', '\t',
+              '\u{7f}', '\u{80}', '\u{ff}', 'é', '\u{40a}', '€', '😀', '\u{10FFFF}'] {
+        let cp = c as u32;
+        let mut spell = vec![format!("\\x{{{cp:x}}}"), format!("\\u{{{cp:X}}}"), format!("\\U{cp:08X}"), format!("\\x{{{cp:06x}}}")];
+        if cp < 0x100 {
+            spell.push(format!("\\x{cp:02X}"));
+        }
+        if cp < 0x10000 {
+            spell.push(format!("\\u{cp:04x}"));
+        }
+        if c.is_ascii_punctuation() {
+            spell.push(format!("\\{c}"));
+        }
+        if c.is_alphanumeric() || !c.is_ascii() {
+            spell.push(c.to_string());
+        }
+        for sp in spell {
+            for src in [sp.clone(), format!("[{sp}]")] {
+                match crate::dump::leaf_bits_how(&src, false, false) {
+                    Ok(b) => {
+                        let m: Vec<u32> = (0..N_SCALARS).filter(|x| bit(&b, *x)).take(4).map(|x| x as u32).collect();
+                        literals.push(json!({"item": src, "cp": cp, "members": m}));
+                    }
+                    Err(e) => unbuilt.push(format!("{src}: {e}")),
+                }
+            }
+        }
+    }
+    let dot_top: Vec<u32> = { let b = crate::dump::leaf_bits_how(".", false, false)?; (0..=0x10FFFFu32).filter(|c| char::from_u32(*c).is_some() && !bit(&b, *c as usize)).collect() };
     let dotc: Vec<u32> = { let b = leaf_bits("[.]")?; (0..=0x10FFFFu32).filter(|c| char::from_u32(*c).is_some() && !bit(&b, *c as usize)).collect() };
     let mut complements = vec![];
     for (p, n) in [("\\d", "\\D"), ("\\s", "\\S"), ("\\w", "\\W"), ("[\\d]", "[\\D]"), ("[\\w]", "[^\\w]"), ("\\pL", "\\PL")] {
@@ -97,7 +129,7 @@ pub fn facts() -> Result<Value, String> {
         ranges.push(json!({"range": src, "lo": lo as u32, "hi": hi as u32, "min": m.first(), "max": m.last(), "count": m.len()}));
     }
     Ok(json!({
-        "literals": literals, "dot_complement": dotc,
+        "literals": literals, "dot_complement": dotc, "dot_top_complement": dot_top, "literal_spellings_not_built": unbuilt,
         "digit_ascii": members_of(&*leaf_bits("\\d")?, true), "space_ascii": members_of(&*leaf_bits("\\s")?, true),
         "word_ascii": members_of(&*leaf_bits("\\w")?, true), "complements": complements, "ranges": ranges,
     }))
